@@ -27,7 +27,7 @@ class Module:
         except SyntaxError as e:  # pragma: no cover
             raise AnalysisError(f"cannot parse {relpath}: {e}") from e
         # private helpers that no property names as an anchor are transparent: inline them into their callers
-        from .inline import normalise_memo_tables, normalise_byte_accumulators, fold_list_building, unroll_constant_loops, final_loop_returns, split_parallel_assignments, expand_table_lookups, inline_helpers, normalise_loops, normalise_match, strip_logging, unroll_table_searches
+        from .inline import flatten_joined_sublists, normalise_memo_tables, normalise_byte_accumulators, fold_list_building, unroll_constant_loops, final_loop_returns, split_parallel_assignments, expand_table_lookups, inline_helpers, normalise_loops, normalise_match, strip_logging, unroll_table_searches
 
         self.stripped_log_statements = strip_logging(self.tree)
         self.split_assignments = split_parallel_assignments(self.tree) + final_loop_returns(self.tree)
@@ -40,6 +40,7 @@ class Module:
         self.normalised_loops = normalise_loops(self.tree) + unroll_table_searches(self.tree)
         self.unrolled_constant_loops = unroll_constant_loops(self.tree)
         self.folded_lists = fold_list_building(self.tree)
+        self.flattened_sublists = flatten_joined_sublists(self.tree)
         for parent in ast.walk(self.tree):
             for child in ast.iter_child_nodes(parent):
                 child._parent = parent  # type: ignore[attr-defined]
